@@ -54,6 +54,7 @@ class _TextParser(HTMLParser):
   def __init__(self, paragraph: model.P, line_number: int) -> None:
     self.line_num: int = line_number
     self.parent: model.ContentElement = paragraph
+    self.paragraph: model.P = paragraph
     super().__init__()
 
   def handle_starttag(self, tag, attrs):
@@ -88,6 +89,10 @@ class _TextParser(HTMLParser):
       return
 
   def handle_endtag(self, tag):
+    if self.parent is self.paragraph:
+      LOGGER.warning("Ignoring end tag without start tag at line %s", self.line_num)
+      return
+
     self.parent = self.parent.parent()
 
   def handle_data(self, data):
